@@ -54,6 +54,9 @@ def build_fnmod(cid, rng):
     for f in fns:
         f.fn_id = "%s::%s" % (cid, f.name)
         f.calls = [c for c in f.calls if not c[3]]
+        if mode == "mod" and rng.random() < 0.35:
+            # an *enabled* cfg: the fn exists, is mirrored with its cfg onto the trait, and must stay un-mockable
+            f.attrs.append(rng.choice(["#[cfg(all())]", "#[cfg(not(any()))]", "#[cfg(any(unix, windows, not(unix)))]"]))
     no_deps = mode == "fn" and fns[0].deps_kind == "no_deps"
     opts = ["mock_api = SubjMock"] + (["no_deps"] if no_deps else []) + rng.choice([[], [], ["unimock = true"], ["unimock"], ["export = false"] if macro == "entrait" else []])
     rng.shuffle(opts)
